@@ -223,11 +223,7 @@ def evaluate_batch(batch, rng, static_only):
                     bump("non-static table (rule not evaluated)")
                 elif ik != spec:
                     wit = {"kind": "table", "world": w.desc, "scenario": sc, "op_index": j, "impl": ik, "spec": spec}
-                    if not sc["keys_desc"][op[2]]:
-                        # the empty key bypasses resolution: `MultiTypeMap.empty` is the last registered
-                        # zero-parameter entry, whatever the priorities, and all-optional entries are ignored
-                        known(o2, "D9:zero-arguments-bypass-resolution", wit)
-                    elif not info["cc"]:
+                    if not info["cc"]:
                         known(o2, "D1:levels-of-unrelated-types", wit)
                     elif not info["tie"]:
                         known(o2, "D21:tiebreak-across-signatures", wit)
